@@ -278,8 +278,8 @@ def failing_theorems(module, build_output):
     rel = module.replace(".", "/") + ".lean"
     ths = theorems_in(module)
     bad = []
-    for m in re.finditer(r"(?:error: )?" + re.escape(rel) + r":(\d+):\d+:(?: error)?", build_output):
-        ln = int(m.group(1))
+    for m in re.finditer(r"(?:error: " + re.escape(rel) + r":(\d+):\d+:)|(?:" + re.escape(rel) + r":(\d+):\d+: error)", build_output):
+        ln = int(m.group(1) or m.group(2))
         owner = None
         for name, l in ths:
             if l <= ln:
